@@ -348,6 +348,10 @@ def shared(ctx):
     core.import_rules(ctx, [c04.r1_no_bypass, c04.r2_verdict], "X04")
     core.import_rules(ctx, [c05.r1_fee_gate], "X05")
     core.import_rules(ctx, [c13.r3_lock_gate], "X13")
+    # "previous set minus every input plus every output" is realised by CoinMapping::insert_coin / remove_coin: their protocol (the key is written /
+    # cleared on every path, whatever the TIP-906 flag) and the confinement of tree writes are necessary
+    from rules.props import c20
+    core.import_rules(ctx, [c20.r1_protocol, c20.r2_confinement], "X20")
 
 
 RULES = [r1_rejection_noop, r2_input_resolution, r3_double_spend, r4_output_construction, r5_effects, r6_wellformed, r7_key_agreement, shared]
